@@ -45,6 +45,10 @@ CLAIMED = {
             "variants); each is called on realised TLC-enumerated states of the three classes, returned id "
             "containers are mutated, and TLC checks that the full projection of the input (order, both tables, "
             "attributes, next automatic id) is unchanged (Nets!Frame on a Query step)."),
+    "C19": ("§4 C19", "NetOps.tla defines subhypergraph, dual (and its involution), <<, complement, cut_to_order / "
+            "k_skeleton, from_max_simplices, largest component, integer relabelling and cleanup (exact result plus "
+            "the five guarantees); TLC evaluates them on the logged argument and compares with the projected result "
+            "of the real call for every TLC-enumerated small hypergraph x flag combinations / selections / orders."),
 }
 NOTE = ("Trusted: TLC, the harness projection/adapter (self-tested on every run by corrupting recorded fields), "
         "and the bounded universes listed in the evidence; outside them only random histories.")
